@@ -382,6 +382,13 @@ class Ctx:
             return SymStr(v)
         return self.values[name]
 
+    def exact(self, x):
+        """a float constant handed to the code under test: the float itself in symbolic mode (lifted exactly), the same value as an exact
+        Fraction in the concrete replay, so that the replay follows the very path the solver reasoned about"""
+        if self.symbolic:
+            return x
+        return Fraction(x)
+
     def choice(self, name, options):
         """concrete choice explored exhaustively (fork per option)"""
         if self.symbolic:
